@@ -36,6 +36,12 @@ Width(e) ==
     [] e.k = "aff" -> Width(e.a[1])
     [] OTHER -> -1
 
+\* recompute the recorded width annotation of every derived node (after substitutions / mutations)
+RECURSIVE Renorm(_)
+Renorm(e) == IF e.k \in {"int", "id"} THEN e
+             ELSE LET e2 == [e EXCEPT !.a = [i \in 1..Len(e.a) |-> Renorm(e.a[i])]] IN
+                  IF e.k = "mem" THEN e2 ELSE [e2 EXCEPT !.w = Width(e2)]
+
 RECURSIVE NodeCount(_)
 RECURSIVE SumNodes(_,_)
 SumNodes(a, i) == IF i > Len(a) THEN 0 ELSE NodeCount(a[i]) + SumNodes(a, i + 1)
